@@ -34,7 +34,9 @@ def runMonitor (pid : String) (c : MonCtx) (ls : List Label) : Option (Option Na
       | some k => some k
       | none => ff (monC07o c) ls)
   | "C10" => some (ff (monC10 c) ls)
-  | "C11" => some (ff (monC11 c) ls)
+  | "C11" => some (match ff (monC11 c) ls with
+      | some k => some k
+      | none => ff (monC11p c) ls)
   | "C12" => some (ff (monC12 c.cfg.cap) ls)
   | "C13" => some (match ff (monC13 c) ls with
       | some k => some k
